@@ -704,7 +704,8 @@ register("C04", run_C04, module="Robotools.Props.C04",
 register("C05", run_C05, module="Robotools.Props.C05History",
          theorems=["Robotools.C05." + t for t in ("combine_zero", "combine_spec", "wellComp_spec", "addStep_amount", "addStep_compValid",
                    "removeStep_frac", "removeStep_amount", "addStep_fracSum", "frac_range", "pair_conserves", "pair_same_well",
-                   "history_normalised", "history_ideal_mixture")]
+                   "history_normalised", "history_ideal_mixture", "constructed_good")]
+                  + ["Robotools.CtorGood.mk_good", "Robotools.CtorGood.trough_mk_good"]
                   + ["Robotools.Amt." + t for t in ("mixed_removeStep", "mixed_addStep", "take_amt", "put_amt", "ablock_pair", "compile_ablock")], rule="transfer/distribute/dispense histories with shared component names; exact amounts ledger")
 register("C06", run_C06, module="Robotools.Props.C06",
          theorems=["Robotools.C06.partition_spec", "Robotools.C06.partition_zero", "Robotools.C06.multi_disp_fits",
